@@ -17,6 +17,9 @@ import Glom.Model.C19Env
   `c19_never_executes` is decision logic over the call / reference graph
   extracted from the AST of cli.py on every run.
 -/
+set_option linter.unusedSimpArgs false
+set_option linter.unusedVariables false
+
 namespace Glom.Props.C19
 open Glom Glom.C19
 
@@ -35,8 +38,17 @@ variable {T S R : Type}
 theorem c19_facts_wf :
     WF genFacts = true ∧
     shapeWF Generated.cliShape Generated.cliMainShape Generated.cliMwSteps Generated.cliEmptyTargetFirst
-      Generated.cliMiddlewares = true ∧
-    probeWF Generated.cliLoaderRaises Generated.cliReadSites = true := by decide +kernel
+      Generated.cliMiddlewares Generated.cliDebugBody = true ∧
+    probeWF Generated.cliLoaderRaises Generated.cliReadSites = true ∧
+    -- what is read is what is loaded: nothing is done to a text between its read and its loader
+    textFlowWF Generated.cliTextTransforms Generated.cliTextSinks = true ∧
+    -- the spec file's name is only opened, the spec format only compared with the three names
+    specNameWF Generated.cliSpecNameUses = true ∧
+    -- the option table of the Command object is the documented one
+    tableWF Generated.cliFlagTable Generated.cliFlagKeys Generated.cliPosargs Generated.cliPostPosargs
+      Generated.cliPosMax Generated.cliFlagfileFlag Generated.cliHelpFlag Generated.cliSubcommands Generated.cliReceivers
+      Generated.cliProvides Generated.cliSpecDefault Generated.cliTargetDefault Generated.cliIndentDefault = true := by
+  decide +kernel
 
 /-- for the code as it is every handler around a loader names `Exception`: of `LoadErrOk` only
     "a loader raises `Exception` subclasses" is then needed (`loadErrOk_of_exception`) -/
@@ -52,11 +64,20 @@ theorem c19_handlers_name_exception :
     `__import__`, unsafe loaders, process spawning, getattr…) is reachable from any entry point
     of cli.py — with them `exec` and `compile` are (so the extraction does see the path) —;
     the only callers in the chain are mw_get_target → `_eval_python_full_spec` → `_compile_code`;
-    the flag default is 'python'; the only calls that receive the spec text under 'python' are
-    `repr` and `ast.literal_eval`. -/
+    the flag default is 'python' (in the AST and on the Command object face builds); the only calls
+    that receive the spec text under 'python' are `repr` and `ast.literal_eval`; the spec file's
+    name and the format's spelling influence nothing else (no format-by-extension, no case
+    folding).  The model-level counterparts for EVERY spec format value, spec file name and raw
+    command line: `c19_exec_only_python_full`, `c19_spec_file_name_irrelevant`,
+    `c19_argv_never_executes`. -/
 theorem c19_never_executes :
     neverExecutesWF Generated.cliEdges Generated.cliDangerousNames Generated.cliSpecTextFlows
-      Generated.cliSpecDefault Generated.cliFunctions = true := by decide +kernel
+      Generated.cliSpecDefault Generated.cliFunctions = true ∧
+    -- … whatever the spec file is CALLED and however the format is SPELLED: the file name is only
+    -- opened / truth-tested / quoted in a message, the format only compared (==) with the three
+    -- documented names; and the flag's default on the Command object itself is 'python'
+    specNameWF Generated.cliSpecNameUses = true ∧
+    Generated.cliFlagTable.contains ("spec_format", "", "str", "'python'", "error") = true := by decide +kernel
 
 /-- … and in the model: unless `--spec-format python-full` is given, the outcome does not depend
     on what the exec-based evaluator would do — with the default format not even on what
@@ -70,7 +91,7 @@ theorem c19_model_no_exec (F : Facts) (hwf : WF F = true) (X : Ext T S R) (a : A
   have hf := fmt_default wf a hfmt
   unfold cliMain getSpec parseSpec
   simp only [hf, wf.specBranches, wf.reprBranches]
-  simp [getTargetText, readStdin, readFail, caughtBy, handleTarget, liftLoad, glomCli, runWith]
+  simp [getTargetText, readStdin, readFail, caughtBy, handleTarget, liftLoad, glomCli, runWith, wrapSpec]
 
 /-! ### every delivery of the same spec and target prints the same thing -/
 
@@ -81,55 +102,57 @@ theorem c19_model_no_exec (F : Facts) (hwf : WF F = true) (X : Ext T S R) (a : A
     `json.dumps(r, indent, sort_keys=True)` + newline (the bare scalar under --scalar) and the
     exit status is 0 — the same for all ten deliveries. -/
 theorem c19_output (F : Facts) (hwf : WF F = true) (X : Ext T S R) (hr : ReprOk X)
-    (q : Request) (junk : String) (tty : Bool)
+    (q : Request) (hq : q.Plain) (junk : String) (tty so : Bool)
     (hs : q.specText.isEmpty = false) (ht : q.targetText.isEmpty = false)
     (hdash : q.targetText ≠ "-") (hfiles : q.FilesOk X)
     (k : String) (hk : refLoaderKind (q.targetFormat.getD "json") = some k)
     (t : T) (hload : X.load k q.targetText = .ok t)
     (s : S) (hspec : refSpecOf X q.specText = .ok s)
-    (r : R) (hlib : X.glom t s = .ok r)
+    (r : R) (hlib : X.glom t s = .ok r) (hquiet : X.printed t s = "")
     (out : String) (hrender : refRender X r (q.indent.getD 2) q.scalar = some out) :
-    cliMain F X q.argv (q.world junk tty) = .exit 0 out := by
+    cliMain F X q.argv (q.world junk tty so) = .exit 0 out := by
   have wf := WF_parts hwf
-  obtain ⟨hst, htt⟩ := request_expect_texts X q junk tty hs ht hdash hfiles
+  obtain ⟨hst, htt⟩ := request_expect_texts X q junk tty so hs ht hdash hfiles
   have hfmt : (q.argv.specFormat == none || q.argv.specFormat == some "python") = true := by
-    simp [Request.argv]
+    simpa [Request.argv] using hq.1
   unfold cliMain
   rw [getSpec_ref wf X hr q.argv hfmt _ hst, hspec]
-  obtain ⟨o, ho, hor⟩ := getTargetText_text F X q.argv (q.world junk tty) _ htt
+  obtain ⟨o, ho, hor⟩ := getTargetText_text F X q.argv (q.world junk tty so) _ htt
   rcases hor with rfl | ⟨he, _⟩
   · simp only [liftExc, ho]
     have hk' : refLoaderKind (q.argv.targetFormat.getD "json") = some k := by simpa [Request.argv] using hk
     rw [(handleTarget_ref wf X q.argv _ ht k hk').1, hload]
     simp only [liftLoad, runWith]
-    rw [glomCli_render X t s r _ _ hlib, wf.indentDefault]
-    have : q.argv.indent = q.indent ∧ q.argv.scalar = q.scalar := by simp [Request.argv]
-    rw [this.1, this.2, hrender]
+    have hflags : q.argv.indent = q.indent ∧ q.argv.scalar = q.scalar ∧ q.argv.debug = false ∧
+        q.argv.inspect = false := by simp [Request.argv, hq.2.1, hq.2.2]
+    rw [hflags.2.2.1, hflags.2.2.2, glomCli_render X _ t s r _ _ hlib hquiet, wf.indentDefault]
+    rw [hflags.1, hflags.2.1, hrender]
   · rw [ht] at he; cases he
 
 /-- **GlomError → exit 1.**  Same deliveries; if the library raises a GlomError of class `cls`
     the command prints `cls: message` and returns 1. -/
 theorem c19_glomerror_exit1 (F : Facts) (hwf : WF F = true) (X : Ext T S R) (hr : ReprOk X)
-    (q : Request) (junk : String) (tty : Bool)
+    (q : Request) (hq : q.Plain) (junk : String) (tty so : Bool)
     (hs : q.specText.isEmpty = false) (ht : q.targetText.isEmpty = false)
     (hdash : q.targetText ≠ "-") (hfiles : q.FilesOk X)
     (k : String) (hk : refLoaderKind (q.targetFormat.getD "json") = some k)
     (t : T) (hload : X.load k q.targetText = .ok t)
     (s : S) (hspec : refSpecOf X q.specText = .ok s)
-    (cls msg : String) (hlib : X.glom t s = .glomError cls msg) :
-    cliMain F X q.argv (q.world junk tty) = .exit 1 (cls ++ ": " ++ msg ++ "\n") := by
+    (cls msg : String) (hlib : X.glom t s = .glomError cls msg) (hquiet : X.printed t s = "") :
+    cliMain F X q.argv (q.world junk tty so) = .exit 1 (cls ++ ": " ++ msg ++ "\n") := by
   have wf := WF_parts hwf
-  obtain ⟨hst, htt⟩ := request_expect_texts X q junk tty hs ht hdash hfiles
+  obtain ⟨hst, htt⟩ := request_expect_texts X q junk tty so hs ht hdash hfiles
   have hfmt : (q.argv.specFormat == none || q.argv.specFormat == some "python") = true := by
-    simp [Request.argv]
+    simpa [Request.argv] using hq.1
   unfold cliMain
   rw [getSpec_ref wf X hr q.argv hfmt _ hst, hspec]
-  obtain ⟨o, ho, hor⟩ := getTargetText_text F X q.argv (q.world junk tty) _ htt
+  obtain ⟨o, ho, hor⟩ := getTargetText_text F X q.argv (q.world junk tty so) _ htt
   rcases hor with rfl | ⟨he, _⟩
   · simp only [liftExc, ho]
     have hk' : refLoaderKind (q.argv.targetFormat.getD "json") = some k := by simpa [Request.argv] using hk
     rw [(handleTarget_ref wf X q.argv _ ht k hk').1, hload]
-    simp only [liftLoad, runWith, glomCli, hlib]
+    have hflags : q.argv.debug = false ∧ q.argv.inspect = false := by simp [Request.argv, hq.2.1, hq.2.2]
+    simp only [liftLoad, runWith, glomCli, hflags.1, hflags.2, wrapSpec_plain, hlib, hquiet, String.empty_append]
   · rw [ht] at he; cases he
 
 /-- **Malformed target → usage error.**  Same deliveries; if the loader rejects the target text
@@ -137,20 +160,20 @@ theorem c19_glomerror_exit1 (F : Facts) (hwf : WF F = true) (X : Ext T S R) (hr 
     `Exception` subclass; where the handler does not name `Exception`, one the probe saw) —
     `main` ends in a UsageError (never in a result, never in another exception). -/
 theorem c19_bad_target_usage_error (F : Facts) (hwf : WF F = true) (X : Ext T S R) (hr : ReprOk X)
-    (hl : LoadErrOk F X) (q : Request) (junk : String) (tty : Bool)
+    (hl : LoadErrOk F X) (q : Request) (hq : q.Plain) (junk : String) (tty so : Bool)
     (hs : q.specText.isEmpty = false) (ht : q.targetText.isEmpty = false)
     (hdash : q.targetText ≠ "-") (hfiles : q.FilesOk X)
     (k : String) (hk : refLoaderKind (q.targetFormat.getD "json") = some k)
     (c : String) (hload : X.load k q.targetText = .error c)
     (s : S) (hspec : refSpecOf X q.specText = .ok s) :
-    cliMain F X q.argv (q.world junk tty) = .usage (.loadError c) := by
+    cliMain F X q.argv (q.world junk tty so) = .usage (.loadError c) := by
   have wf := WF_parts hwf
-  obtain ⟨hst, htt⟩ := request_expect_texts X q junk tty hs ht hdash hfiles
+  obtain ⟨hst, htt⟩ := request_expect_texts X q junk tty so hs ht hdash hfiles
   have hfmt : (q.argv.specFormat == none || q.argv.specFormat == some "python") = true := by
-    simp [Request.argv]
+    simpa [Request.argv] using hq.1
   unfold cliMain
   rw [getSpec_ref wf X hr q.argv hfmt _ hst, hspec]
-  obtain ⟨o, ho, hor⟩ := getTargetText_text F X q.argv (q.world junk tty) _ htt
+  obtain ⟨o, ho, hor⟩ := getTargetText_text F X q.argv (q.world junk tty so) _ htt
   rcases hor with rfl | ⟨he, _⟩
   · simp only [liftExc, ho]
     have hk' : refLoaderKind (q.argv.targetFormat.getD "json") = some k := by simpa [Request.argv] using hk
@@ -180,16 +203,22 @@ theorem c19_unreadable_target_usage_error (F : Facts) (hwf : WF F = true) (X : E
     implementation's observation by the correspondence driver: for ALL flags, worlds and
     externals the model's outcome is what the reference expects wherever the property speaks. -/
 theorem c19_model_checks (F : Facts) (hwf : WF F = true) (X : Ext T S R) (hr : ReprOk X)
-    (hl : LoadErrOk F X) (a : Argv) (w : World) (hrd : ReadErrOk X w) :
+    (hl : LoadErrOk F X) (hquiet : QuietOk X) (a : Argv) (w : World) (hrd : ReadErrOk X w) :
     checkC19 X a w false (observe (cliMain F X a w)) = true := by
   have wf := WF_parts hwf
-  unfold checkC19 observe
+  unfold checkC19 checkExpect observe
   simp only [Bool.not_false, Bool.true_and, Bool.true_or]
   unfold expect
   cases hfmt : (a.specFormat == none || a.specFormat == some "python") with
   | false => simp
   | true =>
-  simp only [Bool.not_true, Bool.false_eq_true, if_false]
+  cases hdbg : a.debug with
+  | true => simp
+  | false =>
+  cases hins : a.inspect with
+  | true => simp
+  | false =>
+  simp only [Bool.not_true, Bool.false_eq_true, if_false, Bool.or_false]
   cases hst : refSpecText X a with
   | none => simp
   | some st =>
@@ -226,7 +255,7 @@ theorem c19_model_checks (F : Facts) (hwf : WF F = true) (X : Ext T S R) (hr : R
               · rw [hte'] at he; cases he
             obtain ⟨href, hmem⟩ := handleTarget_ref wf X a tt hte' k hk
             have hmain : cliMain F X a w
-                = runWith F X a s (liftLoad X (catchOf F (a.targetFormat.getD "json")) (X.load k tt)) := by
+                = runWith F X a w s (liftLoad X (catchOf F (a.targetFormat.getD "json")) (X.load k tt)) := by
               unfold cliMain
               rw [hgs, hsp]
               simp only [liftExc, ho']
@@ -236,14 +265,267 @@ theorem c19_model_checks (F : Facts) (hwf : WF F = true) (X : Ext T S R) (hr : R
             | error c => simp [liftLoad, runWith, caught_load wf.loadCatch X hl _ k tt c hmem hld]
             | ok t =>
               simp only [liftLoad, runWith]
+              have hp : X.printed t s = "" := hquiet st s t hsp
+              rw [hdbg, hins]
               cases hg : X.glom t s with
               | glomError cls msg =>
-                simp [glomCli, hg, String.toList_append, List.isPrefixOf_iff_prefix]
+                simp [glomCli, wrapSpec_plain, hg, hp, String.toList_append, List.isPrefixOf_iff_prefix]
               | other c => simp
               | ok r =>
                 simp only
-                rw [glomCli_render X t s r _ _ hg, wf.indentDefault]
+                rw [glomCli_render X _ t s r _ _ hg hp, wf.indentDefault]
                 cases refRender X r (a.indent.getD 2) a.scalar <;> simp
+
+/-! ### channel equivalence -/
+
+/-- **Delivery independence** (channel equivalence).  The same spec text and target text, the
+    same flags — ANY spec format, --debug / --inspect included — give the same outcome through
+    every pair of channels: spec as argument or file, target as argument, file, `-`,
+    `--target-file -` or piped standard input; whatever else is on standard input, whatever the
+    externals do, for every facts value (nothing in `mw_get_target` looks at WHERE a text came
+    from once it is read).  Forced hypotheses: the target text is not empty (an empty ARGUMENT
+    means "no target given" and sends the command to standard input) and is not the word `-`. -/
+theorem c19_delivery_independent (F : Facts) (X : Ext T S R) (q : Request)
+    (sv sv' : SpecVia) (tv tv' : TargetVia) (junk junk' : String) (tty tty' so : Bool)
+    (ht : q.targetText.isEmpty = false) (hdash : q.targetText ≠ "-")
+    (hf : (q.via sv tv).FilesOk X) (hf' : (q.via sv' tv').FilesOk X) :
+    cliMain F X (q.via sv tv).argv ((q.via sv tv).world junk tty so)
+      = cliMain F X (q.via sv' tv').argv ((q.via sv' tv').world junk' tty' so) := by
+  rw [cliMain_request F X (q.via sv tv) junk tty so ht hdash hf,
+    cliMain_request F X (q.via sv' tv') junk' tty' so ht hdash hf']
+  rfl
+
+/-- **Checker theorem of the channel observation**: the model's outcomes for a request delivered
+    through any list of channel pairs pass `checkChannels` — each delivery gives what the
+    property expects and, where the deliveries are comparable, all outcomes are the same. -/
+theorem c19_channels_check (F : Facts) (hwf : WF F = true) (X : Ext T S R) (hr : ReprOk X)
+    (hl : LoadErrOk F X) (hquiet : QuietOk X)
+    (hrd : ∀ p, X.readFile p = none → isTextReadErr X (X.readErr p) = true)
+    (q : Request) (vias : List (SpecVia × TargetVia)) (junk : String) (tty : Bool) :
+    checkChannels X q vias junk tty false
+      (vias.map (fun v => observe (cliMain F X (q.via v.1 v.2).argv ((q.via v.1 v.2).world junk tty)))) = true := by
+  unfold checkChannels
+  simp only [List.length_map, beq_self_eq_true, Bool.true_and, Bool.and_eq_true, Bool.or_eq_true,
+    Bool.not_eq_eq_eq_not, Bool.not_true]
+  refine ⟨?_, ?_⟩
+  · apply all_zip_map
+    intro v _
+    apply c19_model_checks F hwf X hr hl hquiet
+    refine ⟨hrd, ?_⟩
+    intro c hc
+    cases htv : v.2 <;> simp [Request.world, Request.via, htv] at hc
+  · by_cases hc : q.comparable X vias = true
+    · right
+      simp only [Request.comparable, Bool.and_eq_true, Bool.not_eq_eq_eq_not, Bool.not_true,
+        bne_iff_ne, ne_eq, List.all_eq_true] at hc
+      obtain ⟨⟨ht, hdash⟩, hfs⟩ := hc
+      apply channelsAgree_of_all_eq _ (q.direct F X true)
+      intro o ho
+      simp only [List.map_map, List.mem_map, Function.comp] at ho
+      obtain ⟨v, hv, rfl⟩ := ho
+      simp only [observe]
+      rw [cliMain_request F X (q.via v.1 v.2) junk tty true ht hdash (filesOk_of_B X _ (hfs v hv))]
+      rfl
+    · left; simpa using hc
+
+/-! ### the whole command: every flag combination, every raw command line -/
+
+/-- **The complete decision table.**  For ALL parsed flags (every spec format, --debug /
+    --inspect, both / neither source given, empty texts, unknown formats), worlds and externals,
+    the facts-parametric model of `mw_get_target` / `mw_handle_target` / `glom_cli` does what the
+    manual-style reference `refMain` says: spec problems before target problems, each kind of
+    problem its own usage error, the literal defaults (`python`, `json`, indent 2), the documented
+    format names spelled exactly, `{}` for no / an empty target text, GlomError → status 1. -/
+theorem c19_main_total (F : Facts) (hwf : WF F = true) (X : Ext T S R) (hr : ReprOk X)
+    (hl : LoadErrOk F X) (a : Argv) (w : World) (hrd : ReadErrOk X w) :
+    cliMain F X a w = refMain X a w :=
+  cliMain_total (WF_parts hwf) X hr hl a w hrd
+
+/-- **Exit status, for every raw command line** (any list of strings, any option table, any
+    facts, world and externals): the process ends with status 0 or 1; and when the status is 1
+    and something is on standard output it is the `Class: message` line of a GlomError — a usage
+    error, a rejected command line and an escaping exception print nothing there. -/
+theorem c19_exit_status (tbl : Table) (F : Facts) (X : Ext T S R) (argv : List String) (w : World) :
+    (cliMainArgv tbl F X argv w).status ≤ 1 ∧
+    ((cliMainArgv tbl F X argv w).status = 1 → (cliMainArgv tbl F X argv w).stdout ≠ "" →
+      ∃ a t s cls msg, parseArgv tbl X.penv argv = .ok a ∧ X.glom t s = .glomError cls msg ∧
+        (cliMainArgv tbl F X argv w).stdout = X.printed t s ++ (cls ++ ": " ++ msg ++ "\n")) := by
+  unfold cliMainArgv
+  cases hp : parseArgv tbl X.penv argv with
+  | help => simp [Outcome.status]
+  | fail e => cases e <;> simp [Outcome.status, Outcome.stdout]
+  | ok a =>
+    simp only
+    refine ⟨cliMain_status F X a w, ?_⟩
+    intro hs hout
+    cases hm : cliMain F X a w with
+    | exit c out =>
+      obtain ⟨s, t, _, hg⟩ := cliMain_exit F X a w c out hm
+      rcases glomCli_exit X _ t s _ _ _ _ c out hg with ⟨hc, _⟩ | ⟨_, cls, msg, hglom, hout'⟩
+      · rw [hm] at hs; simp [Outcome.status, hc] at hs
+      · exact ⟨a, t, _, cls, msg, rfl, hglom, by simp [Outcome.stdout, hout']⟩
+    | usage u => rw [hm] at hout; simp [Outcome.stdout] at hout
+    | cli e => rw [hm] at hout; simp [Outcome.stdout] at hout
+    | exc c => rw [hm] at hout; simp [Outcome.stdout] at hout
+
+/-- **Status 0 means a result (or the help text) was printed**, for every raw command line:
+    either `--help` / `-h` was among the flags and the help text is the output, or the command
+    line parsed, the library returned `r`, and the output is `r` rendered (the bare scalar, or
+    json.dumps + newline) after whatever the library call itself printed. -/
+theorem c19_status_zero (tbl : Table) (F : Facts) (X : Ext T S R) (argv : List String) (w : World)
+    (h : (cliMainArgv tbl F X argv w).status = 0) :
+    (parseArgv tbl X.penv argv = .help ∧ cliMainArgv tbl F X argv w = .exit 0 X.helpText) ∨
+    ∃ a t s r, parseArgv tbl X.penv argv = .ok a ∧ X.glom t s = .ok r ∧
+      ((cliMainArgv tbl F X argv w).stdout = X.printed t s ++ X.str r ∨
+       ∃ js, X.dumps r (if a.indent.getD F.indentDefault == 0 then none else some (a.indent.getD F.indentDefault)) = .ok js ∧
+         (cliMainArgv tbl F X argv w).stdout = X.printed t s ++ (js ++ "\n")) := by
+  unfold cliMainArgv at h ⊢
+  cases hp : parseArgv tbl X.penv argv with
+  | help => left; simp
+  | fail e => rw [hp] at h; cases e <;> simp [Outcome.status] at h
+  | ok a =>
+    rw [hp] at h
+    simp only at h ⊢
+    right
+    cases hm : cliMain F X a w with
+    | exit c out =>
+      obtain ⟨s, t, _, hg⟩ := cliMain_exit F X a w c out hm
+      rcases glomCli_exit X _ t s _ _ _ _ c out hg with ⟨_, r, hglom, hout⟩ | ⟨hc, _⟩
+      · refine ⟨a, t, _, r, rfl, hglom, ?_⟩
+        rcases hout with hout | ⟨js, hd, hout⟩
+        · left; simp [Outcome.stdout, hout]
+        · right; exact ⟨js, hd, by simp [Outcome.stdout, hout]⟩
+      · rw [hm] at h; simp [Outcome.status, hc] at h
+    | usage u => rw [hm] at h; simp [Outcome.status] at h
+    | cli e => rw [hm] at h; simp [Outcome.status] at h
+    | exc c => rw [hm] at h; simp [Outcome.status] at h
+
+/-- **The canonical command line.**  For the option table as extracted from the Command object:
+    `glom [--target-file F] [--target-format X] [--spec-file F] [--spec-format X] [--indent N]
+    [--scalar] [--debug] [--inspect] [spec [target]]` — with ANY strings as flag values (they may
+    look like flags) and positional arguments that a command line can carry (at most two, the
+    first not flag-like, none `--`) — is read by face's parser as exactly these flags; so every
+    theorem about parsed flags is a theorem about that command line. -/
+theorem c19_parse_render (F : Facts) (X : Ext T S R) (hi : IntReprOk X.penv) (a : Argv)
+    (hp : posargsOk a.posargs = true) (prog : String) (w : World) :
+    parseArgv genTable X.penv (prog :: a.render) = .ok a ∧
+    cliMainArgv genTable F X (prog :: a.render) w = cliMain F X a w := by
+  have h := parseArgv_render X.penv hi a hp prog
+  exact ⟨h, by unfold cliMainArgv; rw [h]⟩
+
+/-- face never hands more positional arguments to the middleware than the table allows -/
+theorem c19_parse_posargs (tbl : Table) (E : PEnv) (argv : List String) (a : Argv)
+    (h : parseArgv tbl E argv = .ok a) (m : Nat) (hm : tbl.posMax = some m) : a.posargs.length ≤ m := by
+  unfold parseArgv at h
+  split at h
+  · cases h
+  · split at h
+    · cases h
+    · rename_i fm pos _
+      simp only at h
+      split at h
+      · cases h
+      · split at h
+        · cases h
+        · rename_i pos' hc
+          cases h
+          simp only [argvOf]
+          split at hc
+          · cases hc
+          · unfold checkPosargs at hc
+            simp only [hm] at hc
+            split at hc
+            · cases hc
+            · split at hc
+              · cases hc
+              · cases hc; omega
+
+/-- **The checker theorem for raw command lines**: what the model does with ANY list of strings
+    passes the property as the correspondence evaluates it. -/
+theorem c19_model_checks_argv (tbl : Table) (F : Facts) (hwf : WF F = true) (X : Ext T S R) (hr : ReprOk X)
+    (hl : LoadErrOk F X) (hquiet : QuietOk X) (argv : List String) (w : World) (hrd : ReadErrOk X w) :
+    checkArgv tbl X argv w false (observe (cliMainArgv tbl F X argv w)) = true := by
+  unfold checkArgv expectArgv cliMainArgv
+  cases hp : parseArgv tbl X.penv argv with
+  | ok a => exact c19_model_checks F hwf X hr hl hquiet a w hrd
+  | help => simp [checkExpect, observe]
+  | fail e => cases e <;> simp [checkExpect, observe]
+
+/-! ### never executes: every spec format spelling, every spec file name, every command line -/
+
+/-- **Only `--spec-format python-full`, spelled exactly so, reaches the exec-based evaluator**:
+    for every other value of the flag — absent, `python`, `json`, `PYTHON-FULL`, `Python-Full`,
+    `python_full`, `python-full ` with a blank, anything — and every other flag, world and
+    behaviour of the externals, the outcome does not depend on what that evaluator would do
+    (a value that is none of the three documented names is a usage error). -/
+theorem c19_exec_only_python_full (F : Facts) (hwf : WF F = true) (X : Ext T S R) (a : Argv) (w : World)
+    (other : String → Except String S) (h : a.specFormat ≠ some "python-full") :
+    cliMain F (withExec X other) a w = cliMain F X a w := by
+  have wf := WF_parts hwf
+  have hf : a.specFormat.getD F.specDefault ≠ "python-full" := by
+    rw [wf.specDefault]
+    cases hs : a.specFormat with
+    | none => decide
+    | some f => intro he; apply h; rw [hs]; simpa using he
+  have hps : ∀ t, parseSpec F (withExec X other) (a.specFormat.getD F.specDefault) t
+      = parseSpec F X (a.specFormat.getD F.specDefault) t := by
+    intro t
+    generalize a.specFormat.getD F.specDefault = fmt at hf
+    unfold parseSpec
+    rw [wf.specBranches]
+    by_cases h1 : fmt = "python"
+    · subst h1; simp [withExec]
+    · by_cases h2 : fmt = "json"
+      · subst h2; simp [withExec]
+      · have e1 : ¬ "python" = fmt := fun h => h1 h.symm
+        have e2 : ¬ "json" = fmt := fun h => h2 h.symm
+        have e3 : ¬ "python-full" = fmt := fun h => hf h.symm
+        simp [h1, h2, hf, e1, e2, e3]
+  unfold cliMain getSpec
+  simp only [hps]
+  simp [withExec, getTargetText, readStdin, readFail, caughtBy, handleTarget, liftLoad, glomCli, runWith, wrapSpec]
+
+/-- … for every raw command line: the parser itself never looks at a spec, so unless the flags it
+    reads say `spec_format = "python-full"` the exec-based evaluator is irrelevant -/
+theorem c19_argv_exec_only_python_full (tbl : Table) (F : Facts) (hwf : WF F = true) (X : Ext T S R)
+    (argv : List String) (w : World) (other : String → Except String S)
+    (h : ∀ a, parseArgv tbl X.penv argv = .ok a → a.specFormat ≠ some "python-full") :
+    cliMainArgv tbl F (withExec X other) argv w = cliMainArgv tbl F X argv w := by
+  unfold cliMainArgv
+  have hpe : (withExec X other).penv = X.penv := rfl
+  rw [hpe]
+  cases hp : parseArgv tbl X.penv argv with
+  | ok a => exact c19_exec_only_python_full F hwf X a w other (h a hp)
+  | help => rfl
+  | fail e => cases e <;> rfl
+
+/-- **No `python-full` on the command line, no execution** — for every list of strings: if no
+    argument names the flagfile flag, and the text `python-full` is neither an argument nor what
+    follows the first `=` of one, then whatever else the command line says, the outcome does not
+    depend on the exec-based evaluator. -/
+theorem c19_argv_never_executes (tbl : Table) (F : Facts) (hwf : WF F = true) (X : Ext T S R)
+    (prog : String) (args : List String) (w : World) (other : String → Except String S)
+    (hnf : usesFlagfile tbl args = false) (hno : mentions args "python-full" = false) :
+    cliMainArgv tbl F (withExec X other) (prog :: args) w = cliMainArgv tbl F X (prog :: args) w := by
+  apply c19_argv_exec_only_python_full tbl F hwf X (prog :: args) w other
+  intro a ha hv
+  exact fromArgs_of_mentions_false args "python-full" hno
+    (parseArgv_specFormat_from_args tbl X.penv prog args a "python-full" ha hv hnf)
+
+/-- **The NAME of the spec file decides nothing**: two command lines that differ only in the
+    name of the spec file (`spec.glom`, `spec.py`, `spec.PY`, `spec.json`, no extension …), the
+    files holding the same text (or failing the same way), have the same outcome — there is no
+    format-by-extension. -/
+theorem c19_spec_file_name_irrelevant (F : Facts) (X : Ext T S R) (a : Argv) (w : World) (p1 p2 : String)
+    (h1 : p1.isEmpty = false) (h2 : p2.isEmpty = false)
+    (hr : X.readFile p1 = X.readFile p2) (he : X.readErr p1 = X.readErr p2) :
+    cliMain F X { a with specFile := some p1 } w = cliMain F X { a with specFile := some p2 } w := by
+  have hs : getSpec F X { a with specFile := some p1 } = getSpec F X { a with specFile := some p2 } := by
+    unfold getSpec
+    simp [truthy, h1, h2, posTexts, hr, he]
+  unfold cliMain
+  rw [hs]
+  rfl
 
 /-! ### non-vacuity -/
 
@@ -271,10 +553,20 @@ private def toyX : Ext String String String :=
       if c == "JSONDecodeError" then ["JSONDecodeError", "ValueError", "Exception", "BaseException"]
       else if c == "UnicodeDecodeError" then ["UnicodeDecodeError", "UnicodeError", "ValueError", "Exception", "BaseException"]
       else if c == "FileNotFoundError" then ["FileNotFoundError", "OSError", "Exception", "BaseException"]
-      else [c, "BaseException"] }
+      else [c, "BaseException"]
+    inspect := fun s _ _ _ _ => "Inspect(" ++ s ++ ")"
+    printed := fun _ s => if s == "Inspect(a)" then "---\n" else ""
+    parseInt := fun s => if s == "4" then some 4 else if s == "0" then some 0 else if s == "2" then some 2 else none
+    helpText := "Usage: glom [FLAGS] [spec [target]]\n"
+    flagfile := fun p => if p == "/tmp/ff" then .ok [.ok ["--scalar"], .ok [], .ok ["--indent", "4"]]
+      else if p == "/tmp/ff-loop" then .ok [.ok ["--flagfile", "/tmp/ff-loop"], .ok ["--indent=0"]]
+      else if p == "/tmp/ff-bad" then .ok [.ok ["--indent", "4", "5"]]
+      else if p == "/tmp/ff-quote" then .ok [.error "ValueError"]
+      else .error (true, "FileNotFoundError")
+    abspath := fun p => p }
 
 private def req (sv : SpecVia) (tv : TargetVia) : Request :=
-  ⟨"'a'", "{\"a\": 1}", sv, tv, none, none, false⟩
+  ⟨"'a'", "{\"a\": 1}", sv, tv, none, none, false, none, false, false⟩
 
 -- all hypotheses of `c19_output` hold for a concrete request, for each delivery
 example : (req .argv .argv).FilesOk toyX ∧ (req (.file "/tmp/s.glom") (.file "/tmp/t.json")).FilesOk toyX := by
@@ -286,29 +578,29 @@ example : refLoaderKind ((req .argv .argv).targetFormat.getD "json") = some "jso
 example : cliMain genFacts toyX (req .argv .argv).argv ((req .argv .argv).world "junk" true) = .exit 0 "1\n" ∧
     cliMain genFacts toyX (req (.file "/tmp/s.glom") .piped).argv ((req (.file "/tmp/s.glom") .piped).world "" true) = .exit 0 "1\n" ∧
     cliMain genFacts toyX (req .argv .dashArg).argv ((req .argv .dashArg).world "" true) = .exit 0 "1\n" ∧
-    cliMain genFacts toyX (req (.file "/tmp/s.glom") (.file "/tmp/t.json")).argv ⟨"junk", false, none⟩ = .exit 0 "1\n" := by
+    cliMain genFacts toyX (req (.file "/tmp/s.glom") (.file "/tmp/t.json")).argv ⟨"junk", false, none, true⟩ = .exit 0 "1\n" := by
   decide +kernel
 -- without `targetText ≠ "-"`: a positional `-` means standard input, not the text "-"
-example : cliMain genFacts toyX ⟨["'a'", "-"], none, none, none, none, none, false⟩ ⟨"{\"a\": 1}", true, none⟩ = .exit 0 "1\n" := by
+example : cliMain genFacts toyX ⟨["'a'", "-"], none, none, none, none, none, false, false, false⟩ ⟨"{\"a\": 1}", true, none, true⟩ = .exit 0 "1\n" := by
   decide +kernel
 -- without non-empty target text: an empty target text is replaced by `{}` (no loader is called)
-example : cliMain genFacts toyX ⟨["'a'", ""], none, none, none, none, none, false⟩ ⟨"", true, none⟩
+example : cliMain genFacts toyX ⟨["'a'", ""], none, none, none, none, none, false, false, false⟩ ⟨"", true, none, true⟩
     = .exit 1 "PathAccessError: could not access\n" := by decide +kernel
 -- GlomError / malformed target / unreadable file / malformed spec
-example : cliMain genFacts toyX ⟨["zz", "{\"a\": 1}"], none, none, none, none, none, false⟩ ⟨"", true, none⟩
+example : cliMain genFacts toyX ⟨["zz", "{\"a\": 1}"], none, none, none, none, none, false, false, false⟩ ⟨"", true, none, true⟩
       = .exit 1 "PathAccessError: could not access\n" ∧
-    cliMain genFacts toyX ⟨["a", "{\"a\":"], none, none, none, none, none, false⟩ ⟨"", true, none⟩
+    cliMain genFacts toyX ⟨["a", "{\"a\":"], none, none, none, none, none, false, false, false⟩ ⟨"", true, none, true⟩
       = .usage (.loadError "JSONDecodeError") ∧
-    cliMain genFacts toyX ⟨["a"], some "/nonexistent", none, none, none, none, false⟩ ⟨"", true, none⟩
+    cliMain genFacts toyX ⟨["a"], some "/nonexistent", none, none, none, none, false, false, false⟩ ⟨"", true, none, true⟩
       = .usage .targetFileUnreadable ∧
     -- a target file / a standard input that is not UTF-8
-    cliMain genFacts toyX ⟨["a"], some "/tmp/latin1.json", none, none, none, none, false⟩ ⟨"", true, none⟩
+    cliMain genFacts toyX ⟨["a"], some "/tmp/latin1.json", none, none, none, none, false, false, false⟩ ⟨"", true, none, true⟩
       = .usage .targetFileUnreadable ∧
-    cliMain genFacts toyX ⟨["a", "-"], none, none, none, none, none, false⟩ ⟨"", true, some "UnicodeDecodeError"⟩
+    cliMain genFacts toyX ⟨["a", "-"], none, none, none, none, none, false, false, false⟩ ⟨"", true, some "UnicodeDecodeError", true⟩
       = .usage .stdinUnreadable ∧
-    cliMain genFacts toyX ⟨["a"], none, none, none, none, none, false⟩ ⟨"", false, some "UnicodeDecodeError"⟩
+    cliMain genFacts toyX ⟨["a"], none, none, none, none, none, false, false, false⟩ ⟨"", false, some "UnicodeDecodeError", true⟩
       = .usage .stdinUnreadable ∧
-    cliMain genFacts toyX ⟨["{", "{\"a\": 1}"], none, none, none, none, none, false⟩ ⟨"", true, none⟩
+    cliMain genFacts toyX ⟨["{", "{\"a\": 1}"], none, none, none, none, none, false, false, false⟩ ⟨"", true, none, true⟩
       = .exc "SyntaxError" := by decide +kernel
 -- `LoadErrOk` / `ReadErrOk` hold for the toy externals …
 example : LoadErrOk genFacts toyX :=
@@ -319,13 +611,13 @@ example : LoadErrOk genFacts toyX :=
 -- … and are needed.  Without `LoadErrOk`: a loader that raised a class outside `Exception`
 -- would leave `main` with it (`except Exception` does not catch a bare BaseException)
 example : cliMain genFacts { toyX with load := fun _ _ => .error "KeyboardInterrupt" }
-      ⟨["a", "{\"a\":"], none, none, none, none, none, false⟩ ⟨"", true, none⟩
+      ⟨["a", "{\"a\":"], none, none, none, none, none, false, false, false⟩ ⟨"", true, none, true⟩
     = .exc "KeyboardInterrupt" := by decide +kernel
 -- without `catchWF`: the handler narrowed to the loader's "parse error" class lets the other
 -- classes the same loader raises on text escape (PyYAML's timestamp constructor: ValueError)
 example : cliMain { genFacts with loadCatch := [("json", ["JSONDecodeError"])] }
         { toyX with load := fun _ _ => .error "RecursionError" }
-        ⟨["a", "[[[["], none, none, none, none, none, false⟩ ⟨"", true, none⟩
+        ⟨["a", "[[[["], none, none, none, none, none, false, false, false⟩ ⟨"", true, none, true⟩
       = .exc "RecursionError" ∧
     WF { genFacts with loadCatch := [("json", ["ValueError"]), ("yaml", ["YAMLError"]), ("yml", ["YAMLError"]),
         ("toml", ["TOMLDecodeError"]), ("python", ["ValueError", "SyntaxError"])] } = false ∧
@@ -337,10 +629,10 @@ example : cliMain { genFacts with loadCatch := [("json", ["JSONDecodeError"])] }
 -- without `ReadErrOk` / `readCatchWF`: `except OSError` alone lets the UnicodeDecodeError of a
 -- file that is not UTF-8 leave `main` (glom before dbce23c)
 example : cliMain { genFacts with targetReadCatch := ["OSError"] } toyX
-      ⟨["a"], some "/tmp/latin1.json", none, none, none, none, false⟩ ⟨"", true, none⟩
+      ⟨["a"], some "/tmp/latin1.json", none, none, none, none, false, false, false⟩ ⟨"", true, none, true⟩
     = .exc "UnicodeDecodeError" ∧
     cliMain { genFacts with stdinReadCatch := [] } toyX
-      ⟨["a", "-"], none, none, none, none, none, false⟩ ⟨"", true, some "UnicodeDecodeError"⟩
+      ⟨["a", "-"], none, none, none, none, none, false, false, false⟩ ⟨"", true, some "UnicodeDecodeError", true⟩
     = .exc "UnicodeDecodeError" ∧
     WF { genFacts with targetReadCatch := ["OSError"] } = false ∧
     -- … while naming a class above UnicodeError is as good
@@ -349,7 +641,110 @@ example : cliMain { genFacts with targetReadCatch := ["OSError"] } toyX
 -- `ReprOk` holds for the toy externals on a bare word
 example : toyX.parse "python-literal" (toyX.repr "a") = .ok (toyX.strSpec "a") := by decide +kernel
 -- `c19_model_no_exec` without its hypothesis: under --spec-format python-full the outcome DOES depend on the evaluator
-example : cliMain genFacts toyX ⟨["a", "{\"a\": 1}"], none, none, none, some "python-full", none, false⟩ ⟨"", true, none⟩
+example : cliMain genFacts toyX ⟨["a", "{\"a\": 1}"], none, none, none, some "python-full", none, false, false, false⟩ ⟨"", true, none, true⟩
     = .exc "NoOracle" := by decide +kernel
+
+/-! #### channels -/
+-- the hypotheses of `c19_delivery_independent` hold for the toy request in all ten deliveries, and the
+-- outcomes are the same
+example : ((req .argv .argv).comparable toyX
+      [(.argv, .argv), (.argv, .file "/tmp/t.json"), (.argv, .dashArg), (.argv, .dashFile), (.argv, .piped),
+       (.file "/tmp/s.glom", .argv), (.file "/tmp/s.glom", .file "/tmp/t.json"), (.file "/tmp/s.glom", .dashArg),
+       (.file "/tmp/s.glom", .dashFile), (.file "/tmp/s.glom", .piped)]) = true := by decide +kernel
+-- without a non-empty target text: an empty ARGUMENT sends the command to a piped standard input,
+-- an empty FILE does not
+example : cliMain genFacts toyX ((req .argv .argv).via .argv .argv |>.argv |> fun a => { a with posargs := ["'a'", ""] })
+        ⟨"{\"a\": 1}", false, none, true⟩ = .exit 0 "1\n" ∧
+    cliMain genFacts { toyX with readFile := fun _ => some "" } ⟨["'a'"], some "/tmp/empty", none, none, none, none, false, false, false⟩
+        ⟨"{\"a\": 1}", false, none, true⟩ = .exit 1 "PathAccessError: could not access\n" := by decide +kernel
+-- a usage error shows no kind, a result shows everything: `channelsAgree` tells them apart
+example : channelsAgree [.exit 0 "1\n", .exit 0 "1\n"] = true ∧ channelsAgree [.exit 0 "1\n", .exit 0 "1"] = false ∧
+    channelsAgree [.usage .targetBoth, .usage (.loadError "X")] = true ∧
+    channelsAgree [.usage .targetBoth, .exit 1 "PathAccessError: \n"] = false := by decide +kernel
+
+/-! #### the raw command line -/
+-- flag spellings (case, `_`, one or three dashes), `=` values, a value that looks like a flag, `-` as target
+example : parseArgv genTable toyX.penv ["glom", "--SPEC_FORMAT=json", "-indent", "4", "---Target-Format", "--scalar", "a", "-"]
+      = .ok ⟨["a", "-"], none, some "--scalar", none, some "json", some 4, false, false, false⟩ ∧
+    -- flags end at the first positional argument: what follows is positional
+    parseArgv genTable toyX.penv ["glom", "a", "--scalar"] = .ok ⟨["a", "--scalar"], none, none, none, none, none, false, false, false⟩ ∧
+    parseArgv genTable toyX.penv ["glom", "a", "b", "--scalar"] = .fail (.cli .tooManyPosargs) ∧
+    -- a lone `-H` is no flag (one dash keeps its case), `--H` is help
+    parseArgv genTable toyX.penv ["glom", "-H"] = .fail (.cli .unknownFlag) ∧
+    parseArgv genTable toyX.penv ["glom", "--H"] = .help ∧
+    -- help wins over an error found AFTER the flags were read, not over one found while reading them
+    parseArgv genTable toyX.penv ["glom", "-h", "a", "b", "c"] = .help ∧
+    parseArgv genTable toyX.penv ["glom", "--scalar", "--scalar", "-h"] = .help ∧
+    parseArgv genTable toyX.penv ["glom", "-h", "--nope"] = .fail (.cli .unknownFlag) ∧
+    parseArgv genTable toyX.penv ["glom", "--scalar", "--SCALAR"] = .fail (.cli .duplicateFlag) ∧
+    parseArgv genTable toyX.penv ["glom", "--indent", "x"] = .fail (.cli .invalidFlagArg) ∧
+    parseArgv genTable toyX.penv ["glom", "--indent"] = .fail (.cli .missingFlagArg) ∧
+    parseArgv genTable toyX.penv ["glom", "--scalar=1"] = .fail (.cli .invalidFlagArg) ∧
+    parseArgv genTable toyX.penv ["glom", "--scalar="] = .ok ⟨[], none, none, none, none, none, true, false, false⟩ ∧
+    parseArgv genTable toyX.penv ["glom", "a", "--"] = .ok ⟨["a"], none, none, none, none, none, false, false, false⟩ ∧
+    parseArgv genTable toyX.penv ["glom", "a", "--", "b"] = .fail (.cli .postPosargs) ∧
+    parseArgv genTable toyX.penv [] = .fail (.cli .emptyArgv) := by decide +kernel
+-- flagfiles: flags from a file, a file that names itself (taken once), excessive arguments, a line
+-- shlex cannot split (no FaceException: it leaves `main`), a missing file, a flag given on the
+-- command line AND in the file
+example : parseArgv genTable toyX.penv ["glom", "--flagfile", "/tmp/ff", "a"]
+      = .ok ⟨["a"], none, none, none, none, some 4, true, false, false⟩ ∧
+    parseArgv genTable toyX.penv ["glom", "--flagfile=/tmp/ff-loop"] = .ok ⟨[], none, none, none, none, some 0, false, false, false⟩ ∧
+    parseArgv genTable toyX.penv ["glom", "--flagfile", "/tmp/ff-bad"] = .fail (.cli .flagfileExtraArgs) ∧
+    parseArgv genTable toyX.penv ["glom", "--flagfile", "/tmp/ff-quote"] = .fail (.exc "ValueError") ∧
+    parseArgv genTable toyX.penv ["glom", "--flagfile", "/tmp/none"] = .fail (.cli .flagfileUnreadable) ∧
+    parseArgv genTable toyX.penv ["glom", "--scalar", "--flagfile", "/tmp/ff"] = .fail (.cli .duplicateFlag) ∧
+    parseArgv genTable toyX.penv ["glom", "--flagfile", "/tmp/ff", "--flagfile", "/tmp/ff"]
+      = .ok ⟨[], none, none, none, none, some 4, true, false, false⟩ := by decide +kernel
+-- `c19_parse_render`: its hypotheses hold for concrete flags (the toy `int()` knows 4) …
+example : posargsOk ["a", "-5"] = true ∧ posargsOk ["-"] = true ∧ posargsOk ["", "--x"] = true := by decide +kernel
+example : parseArgv genTable toyX.penv ("glom" :: (⟨["a", "-5"], some "--x", none, none, some "json", some 4, true, false, true⟩ : Argv).render)
+    = .ok ⟨["a", "-5"], some "--x", none, none, some "json", some 4, true, false, true⟩ := by decide +kernel
+-- … and are needed: a first positional argument that looks like a flag IS read as a flag, a third
+-- one is rejected, `--` is swallowed
+example : posargsOk ["--scalar"] = false ∧ posargsOk ["a", "b", "c"] = false ∧ posargsOk ["a", "--"] = false ∧
+    parseArgv genTable toyX.penv ("glom" :: (⟨["--scalar"], none, none, none, none, none, false, false, false⟩ : Argv).render)
+      = .ok ⟨[], none, none, none, none, none, true, false, false⟩ := by decide +kernel
+-- exit status: help 0, result 0, GlomError 1, usage error 1, rejected command line 1, traceback 1
+example : (cliMainArgv genTable genFacts toyX ["glom", "-h"] ⟨"", true, none, true⟩) = .exit 0 "Usage: glom [FLAGS] [spec [target]]\n" ∧
+    (cliMainArgv genTable genFacts toyX ["glom", "'a'", "{\"a\": 1}"] ⟨"", true, none, true⟩).status = 0 ∧
+    (cliMainArgv genTable genFacts toyX ["glom", "zz", "{\"a\": 1}"] ⟨"", true, none, true⟩).status = 1 ∧
+    (cliMainArgv genTable genFacts toyX ["glom", "a", "{\"a\":"] ⟨"", true, none, true⟩) = .usage (.loadError "JSONDecodeError") ∧
+    (cliMainArgv genTable genFacts toyX ["glom", "--nope"] ⟨"", true, none, true⟩) = .cli .unknownFlag ∧
+    (cliMainArgv genTable genFacts toyX ["glom", "{", "{\"a\": 1}"] ⟨"", true, none, true⟩) = .exc "SyntaxError" := by decide +kernel
+
+-- `c19_argv_never_executes`: its hypotheses hold for a command line full of other flags, and fail — as
+-- they must — when `python-full` is given in either syntax or may come from a flagfile
+example : usesFlagfile genTable ["--spec-file", "/tmp/s.py", "--SPEC-FORMAT", "PYTHON-FULL", "--indent=4", "a"] = false ∧
+    mentions ["--spec-file", "/tmp/s.py", "--SPEC-FORMAT", "PYTHON-FULL", "--indent=4", "a"] "python-full" = false ∧
+    mentions ["--spec-format", "python-full"] "python-full" = true ∧
+    mentions ["--Spec_Format=python-full"] "python-full" = true ∧
+    usesFlagfile genTable ["-flagfile=/tmp/ff"] = true := by decide +kernel
+
+/-! #### spec formats, spec file names, --debug / --inspect -/
+-- the format names are the documented ones spelled exactly: another case is a usage error, not the evaluator
+example : cliMain genFacts toyX ⟨["a", "{\"a\": 1}"], none, none, none, some "PYTHON-FULL", none, false, false, false⟩ ⟨"", true, none, true⟩
+      = .usage .badSpecFormat ∧
+    cliMain genFacts toyX ⟨["a", "{\"a\": 1}"], none, none, none, some "Python", none, false, false, false⟩ ⟨"", true, none, true⟩
+      = .usage .badSpecFormat ∧
+    cliMain genFacts toyX ⟨["a", "{\"a\": 1}"], none, some "JSON", none, none, none, false, false, false⟩ ⟨"", true, none, true⟩
+      = .usage .badTargetFormat := by decide +kernel
+-- problems with the spec are reported before problems with the target; an unknown target format is
+-- not even looked at when there is no target text
+example : cliMain genFacts toyX ⟨["a", "{\"a\": 1}"], some "/tmp/t.json", none, some "/tmp/s.glom", none, none, false, false, false⟩ ⟨"", true, none, true⟩
+      = .usage .specBoth ∧
+    cliMain genFacts toyX ⟨["a", "{\"a\": 1}"], some "/tmp/t.json", none, none, none, none, false, false, false⟩ ⟨"", true, none, true⟩
+      = .usage .targetBoth ∧
+    cliMain genFacts toyX ⟨["a"], none, some "xml", none, none, none, false, false, false⟩ ⟨"", true, none, true⟩
+      = .exit 1 "PathAccessError: could not access\n" := by decide +kernel
+-- --inspect: the spec is wrapped, what the library call printed precedes the result; the debugger
+-- hooks are armed only while standard input is open
+example : cliMain genFacts toyX ⟨["'a'", "{\"a\": 1}"], none, none, none, none, none, false, false, true⟩ ⟨"", true, none, true⟩
+      = .exit 1 "---\nPathAccessError: could not access\n" ∧
+    wrapSpec toyX true "a" true false = "Inspect(a)" ∧ wrapSpec toyX false "a" false false = "a" := by decide +kernel
+-- the NAME of the spec file decides nothing (`c19_spec_file_name_irrelevant` on two names of one text)
+example : cliMain genFacts { toyX with readFile := fun p => if p == "/tmp/spec.py" || p == "/tmp/spec.glom" then some "'a'" else none }
+        ⟨["", "{\"a\": 1}"], none, none, some "/tmp/spec.py", none, none, false, false, false⟩ ⟨"", true, none, true⟩
+      = .exit 0 "1\n" := by decide +kernel
 
 end Glom.Props.C19
